@@ -128,6 +128,21 @@ class Module:
     def segment(self, node):
         return ast.get_source_segment(self.src, node) or ""
 
+    def binds(self, name):
+        """does the module bind `name` at top level (def / class / assignment / import)?"""
+        for n in self.tree.body:
+            if isinstance(n, (ast.FunctionDef, ast.ClassDef, ast.AsyncFunctionDef)) and n.name == name:
+                return True
+            if isinstance(n, (ast.Import, ast.ImportFrom)):
+                for a in n.names:
+                    if (a.asname or a.name.split(".")[0]) == name or a.name == "*":
+                        return True
+            if isinstance(n, (ast.Assign, ast.AugAssign, ast.AnnAssign, ast.For, ast.With, ast.If, ast.Try, ast.While)):
+                for x in ast.walk(n):
+                    if isinstance(x, ast.Name) and x.id == name and isinstance(x.ctx, ast.Store):
+                        return True
+        return False
+
     def imported(self, name, module, attr=None):
         """is the module-level name `name` bound exactly once, by `import module` (attr None) or
         `from module import attr`?"""
@@ -155,22 +170,39 @@ class Module:
         if name in self.consts:
             return self.consts[name][1]
         binds = []
+        def scope_walk(nodes):
+            """the nodes of the module scope: compound statements are entered, function / class bodies are not"""
+            for n in nodes:
+                yield n
+                if isinstance(n, (ast.FunctionDef, ast.AsyncFunctionDef, ast.ClassDef, ast.Lambda)):
+                    continue
+                yield from scope_walk(ast.iter_child_nodes(n))
+        for n in scope_walk(self.tree.body):
+            if isinstance(n, ast.Name) and n.id == name and isinstance(n.ctx, (ast.Store, ast.Del)):
+                binds.append(n)
+            if isinstance(n, (ast.FunctionDef, ast.AsyncFunctionDef, ast.ClassDef)) and n.name == name:
+                binds.append(n)
+            if isinstance(n, (ast.Import, ast.ImportFrom)):
+                for a in n.names:
+                    if (a.asname or a.name.split(".")[0]) == name or a.name == "*":
+                        binds.append(n)
         for n in ast.walk(self.tree):
-            if isinstance(n, (ast.Assign, ast.AugAssign, ast.AnnAssign)):
-                tg = n.targets if isinstance(n, ast.Assign) else [n.target]
-                for t in tg:
-                    for x in ast.walk(t):
-                        if isinstance(x, ast.Name) and x.id == name and isinstance(x.ctx, ast.Store):
-                            binds.append(n)
-            if isinstance(n, ast.Global) and name in n.names:
+            if isinstance(n, (ast.Global, ast.Nonlocal)) and name in n.names:
                 binds.append(n)
         top = [n for n in self.tree.body if isinstance(n, ast.Assign) and len(n.targets) == 1
                and isinstance(n.targets[0], ast.Name) and n.targets[0].id == name]
         if not top:
             raise TranslationError("%s: name %r is neither a local, a parameter nor a module-level constant" % (where, name))
-        if len(binds) != 1 or binds[0] is not top[0]:
+        if len(binds) != 1 or binds[0] is not top[0].targets[0]:
             raise TranslationError("%s: module-level name %r is bound more than once (%d bindings)" % (where, name, len(binds)))
         node = top[0]
+        for n in ast.walk(self.tree):
+            if isinstance(n, ast.Subscript) and isinstance(n.value, ast.Name) and n.value.id == name \
+               and isinstance(n.ctx, (ast.Store, ast.Del)):
+                raise TranslationError("%s: module-level %r is item-assigned at line %d: not a constant" % (where, name, n.lineno))
+            if isinstance(n, ast.Attribute) and isinstance(n.value, ast.Name) and n.value.id == name:
+                raise TranslationError("%s: a method / attribute of module-level %r is used at line %d (it may be mutated): "
+                                       "not a constant" % (where, name, n.lineno))
         fn = Fn(self, None, {"name": name}, const=True)
         v = fn.expr(node.value, {})
         if fn.pre:
@@ -198,12 +230,16 @@ class Fn:
         self.const = const
         self.names = set()
         self.notes = []
+        self.locals = set()           # parameters and every name the function binds (Python: local for the whole body)
         if node is not None:
             for n in ast.walk(node):
                 if isinstance(n, ast.Name):
                     self.names.add(n.id)
+                    if isinstance(n.ctx, (ast.Store, ast.Del)):
+                        self.locals.add(n.id)
                 if isinstance(n, ast.arg):
                     self.names.add(n.arg)
+                    self.locals.add(n.arg)
 
     # -------------------------------------------------------------------------------- helpers
     def err(self, node, msg):
@@ -245,8 +281,8 @@ class Fn:
         if isinstance(e, ast.Name):
             if e.id in env:
                 return env[e.id]
-            if e.id in ("True", "False"):
-                return V(e.id.lower(), BOOL)
+            if e.id in self.locals:
+                self.err(e, "local variable %s may be unbound here (or belongs to an enclosing function): not in the subset" % e.id)
             return self.mod.constant(e.id, "%s:%d" % (self.mod.relpath, e.lineno))
         if isinstance(e, ast.Attribute):
             if isinstance(e.value, ast.Name) and e.value.id in env and env[e.value.id].t == "rec":
@@ -403,6 +439,9 @@ class Fn:
 
     def cond(self, e, env):
         """Lean Prop text (decidable) for a Python expression used as a condition"""
+        if isinstance(e, ast.Call) and isinstance(e.func, ast.Name) and e.func.id == "isinstance" and (
+                "isinstance" in self.locals or self.mod.binds("isinstance")):
+            self.err(e, "the name isinstance is re-bound in this function or module")
         if isinstance(e, ast.BoolOp):
             parts = []
             for i, x in enumerate(e.values):
@@ -464,6 +503,8 @@ class Fn:
         ex = _extract()
         def codes_of(s):
             big, codes = ex.parse_fmt(s)
+            if (not s or s[0] not in "<>!=") and len(set(codes)) > 1:
+                self.err(node, "native-alignment struct format %r with codes of different sizes (padding) is not in the subset" % s)
             bad = [c for c in codes if c not in (".u8", ".u16", ".u32", ".u64")]
             if bad:
                 self.err(node, "signed struct code in %r: not in the subset (Py.Struct returns the raw unsigned image)" % s)
@@ -504,6 +545,9 @@ class Fn:
         if e.keywords:
             self.err(e, "keyword arguments are not in the subset")
         name = f.id if isinstance(f, ast.Name) else None
+        if name in ("len", "int", "pow", "bytes", "bytearray", "sum", "reduce", "Decimal", "isinstance", "range"):
+            if name in self.locals or name in env or (name not in ("reduce", "Decimal") and self.mod.binds(name)):
+                self.err(e, "the name %s is re-bound in this function or module: the call is not the built-in" % name)
         if name == "len" and len(e.args) == 1:
             a = self.expr(e.args[0], env)
             if a.t not in (BYTES, BYTEARRAY, INTS):
@@ -572,6 +616,7 @@ class Fn:
                 self.err(e, "reduce() over %s" % a.t)
             sub = Fn(self.mod, lam, self.spec)
             sub.guard = 1          # nothing that raises inside the lambda
+            sub.locals = (self.locals | set(env)) - {x, y}      # a captured local is refused, never mistaken for a constant
             body = sub.expr(lam.body, {x: V(lname(x), INT), y: V(lname(y), INT)})
             if body.t != INT:
                 self.err(e, "reduce: the lambda returns %s" % body.t)
@@ -851,6 +896,10 @@ class Fn:
             ex = s.exc.func if isinstance(s.exc, ast.Call) else s.exc
             if not isinstance(ex, ast.Name) or ex.id not in EXC:
                 self.err(s, "raise of %s is not in the subset" % ast.unparse(ex))
+            if ex.id in self.locals or self.mod.binds(ex.id):
+                self.err(s, "the exception name %s is re-bound in this function or module" % ex.id)
+            if isinstance(s.exc, ast.Call) and (s.exc.keywords or not all(isinstance(a, ast.Constant) for a in s.exc.args)):
+                self.err(s, "exception arguments must be constants (evaluating them could itself raise)")
             if not self.monadic:
                 raise NeedMonad()
             return "(.error %s)" % EXC[ex.id]
@@ -869,6 +918,32 @@ class Fn:
         if isinstance(s, ast.For):
             return self.for_stmt(s, rest, env, k)
         self.err(s, "statement %s is not in the subset" % type(s).__name__)
+
+    # ownership: the keys of env["#own"].ltlen are the local variables that hold a mutable object (list / bytearray)
+    # created in this function and not aliased by another name; only those may be item- or slice-assigned
+    @staticmethod
+    def own(env):
+        return env["#own"].ltlen if "#own" in env else frozenset()
+
+    @staticmethod
+    def set_own(env, keys):
+        env["#own"] = V("", "#own", ltlen=keys)
+
+    def note_binding(self, key, v, value_node, env):
+        """update ownership after `key = <value_node>`"""
+        o = set(self.own(env))
+        o.discard(key)
+        if v.t in (INTS, BYTEARRAY):
+            src = None
+            if isinstance(value_node, ast.Name):
+                src = value_node.id
+            elif isinstance(value_node, ast.Attribute) and isinstance(value_node.value, ast.Name):
+                src = value_node.value.id + "." + value_node.attr
+            if src is None and not isinstance(value_node, (ast.Subscript, ast.IfExp)):
+                o.add(key)            # a new object: list display, [c] * n, bytearray(...), a call result, a slice copy
+            elif src is not None:
+                o.discard(src)        # two names for one object: neither may be mutated from here on
+        self.set_own(env, o)
 
     def bind(self, key, v, env):
         """lean let binding python variable `key` to value v; updates env"""
@@ -908,7 +983,9 @@ class Fn:
                     if isinstance(t, ast.Subscript) and isinstance(t.slice, ast.Slice):
                         text += self.store_stride(s, t, tv, env)
                     else:
-                        text += self.bind(self.target_key(t, env), tv, env)
+                        kk_ = self.target_key(t, env)
+                        text += self.bind(kk_, tv, env)
+                        self.note_binding(kk_, tv, value.elts[list(target.elts).index(t)], env)
                 return text + self.block(rest, env, k)
             keys = [self.target_key(t, env) for t in target.elts]
             v = self.expr(value, env)
@@ -925,6 +1002,7 @@ class Fn:
             if key not in env:
                 self.err(s, "item assignment to unbound %s" % key)
             seq = env[key]
+            self.need_own(s, key, env)
             if isinstance(target.slice, ast.Slice):
                 if op is not None:
                     self.err(s, "augmented slice assignment is not in the subset")
@@ -953,6 +1031,8 @@ class Fn:
         if op is not None:
             if key not in env:
                 self.err(s, "augmented assignment to unbound %s" % key)
+            if env[key].t in (INTS, BYTEARRAY):
+                self.need_own(s, key, env)          # `+=` on a list / bytearray mutates the object in place
             v = self.binop(s, op, env[key], v)
         if v.t == "rec":
             self.err(s, "assigning an object is not in the subset")
@@ -960,10 +1040,17 @@ class Fn:
             self.err(s, "variable %s changes type from %s to %s" % (key, env[key].t, v.t))
         # a sequence that is re-bound invalidates `index < len(seq)` facts about it
         for kk, vv in list(env.items()):
-            if key in vv.ltlen:
+            if kk != "#own" and key in vv.ltlen:
                 env[kk] = V(vv.s, vv.t, vv.lo, vv.hi, vv.n, vv.ltlen - {key}, vv.elo, vv.ehi, vv.rec)
         text = self.bind(key, v, env)
+        self.note_binding(key, v, value if op is None else None, env)
         return self.flush(text) + self.block(rest, env, k)
+
+    def need_own(self, s, key, env):
+        if key in self.own(env) or key in self.spec.get("mutates", []):
+            return
+        self.err(s, "%s is mutated in place but is (or may be) shared with the caller or another name "
+                    "(a parameter, a tuple, or an aliased object): not in the subset" % key)
 
     def store_stride(self, s, target, v, env):
         """`seq[A::K] = v` on a bytearray / int list variable, K >= 2: the raising `Py.strideSetE`"""
@@ -973,6 +1060,7 @@ class Fn:
         seq = env[key]
         if seq.t == BYTES:
             self.err(s, "slice assignment on an immutable bytes object (TypeError)")
+        self.need_own(s, key, env)
         if seq.t not in (BYTEARRAY, INTS):
             self.err(s, "slice assignment on %s is not in the subset" % seq.t)
         if not isinstance(target.slice, ast.Slice) or target.slice.step is None:
@@ -1042,6 +1130,7 @@ class Fn:
             self.monadic = saved
         ea, eb = ends[0], ends[-1]
         env2 = dict(env)
+        self.set_own(env2, self.own(ea) & self.own(eb))
         for n in names:
             if ea[n].t != eb[n].t:
                 self.err(s, "variable %s has type %s in one branch and %s in the other" % (n, ea[n].t, eb[n].t))
@@ -1078,6 +1167,8 @@ class Fn:
         lv = None
         if isinstance(it, ast.Call) and isinstance(it.func, ast.Name) and it.func.id == "range" and not it.keywords \
            and 1 <= len(it.args) <= 3:
+            if "range" in self.locals or self.mod.binds("range"):
+                self.err(s, "the name range is re-bound in this function or module")
             args = [self.expr(a, env) for a in it.args]
             if any(a.t != INT for a in args):
                 self.err(s, "range() of a non-int")
@@ -1102,6 +1193,11 @@ class Fn:
                 lv = V(lname(var), INT, args[0].lo, None if args[1].hi is None else args[1].hi - 1)
         else:
             seq = self.expr(it, env)
+            itk = it.id if isinstance(it, ast.Name) else (
+                it.value.id + "." + it.attr if isinstance(it, ast.Attribute) and isinstance(it.value, ast.Name) else None)
+            if seq.t in (INTS, BYTEARRAY) and (itk is None or itk in asg):
+                if itk is not None:
+                    self.err(s, "the loop body assigns to the sequence it iterates over (%s)" % itk)
             if seq.t in (BYTES, BYTEARRAY):
                 iters = "(Py.bytesInts %s)" % seq.s
                 lv = V(lname(var), INT, 0, 255)
@@ -1126,7 +1222,7 @@ class Fn:
             benv[n] = V(v.s, v.t, None, None, None if whole else v.n, (), None, None, v.rec)
         for kk_, vv in list(benv.items()):
             dead = vv.ltlen & set(state)
-            if dead:
+            if dead and kk_ != "#own":
                 benv[kk_] = V(vv.s, vv.t, vv.lo, vv.hi, vv.n, vv.ltlen - dead, vv.elo, vv.ehi, vv.rec)
         if var != "_":
             benv[var] = lv
@@ -1154,6 +1250,7 @@ class Fn:
             self.monadic = saved
             self.loop -= 1
         env2 = dict(env)
+        self.set_own(env2, self.own(env) & self.own(ends[0]) if ends else self.own(env))
         for n in temps + [var]:
             env2.pop(n, None)
         for n in state:
